@@ -327,6 +327,7 @@ func evalC12(c c12Case, rec *hx.Rec) error {
 	Cfg()
 	rec.Eval(1)
 	rec.Sample(c)
+	raceBefore := raceLogSize() // a race between the internal worker goroutines of ONE call counts as well
 	// sequential reference run: every call alone, under the default scheduler setting (GOMAXPROCS = NumCPU); the concurrent
 	// run below uses this process's GOMAXPROCS value (1, 2, 4, 16 ... set by the driver), so the comparison also shows a
 	// result that depends on GOMAXPROCS
@@ -346,7 +347,6 @@ func evalC12(c c12Case, rec *hx.Rec) error {
 	runtime.GOMAXPROCS(gmp)
 	c12SharedPW = ipa.NewPrecomputedWeights()
 	defer func() { c12SharedPW = nil }()
-	raceBefore := raceLogSize()
 	got := make([][][]byte, len(c.Plan))
 	errs := make([]error, len(c.Plan))
 	start := make(chan struct{})
